@@ -103,4 +103,10 @@ MUTATIONS += [
     dict(name="revert_D42_hermite_gradient_cancellation", props=["C07"], file=I,
          old="        return h01 * (self.p1 - self.p0) + h10 * self.trange * self.m0 + h11 * self.trange * self.m1",
          new="        return (-h01) * self.p0 + h10 * self.trange * self.m0 + h01 * self.p1 + h11 * self.trange * self.m1"),
+    dict(name="revert_D43_numpy_integer_index", props=["C19"], file=DS,
+         old="        if isinstance(index, (int, np.integer)):", new="        if isinstance(index, int):"),
+    dict(name="revert_D44_integer_typed_jacobian_point", props=["C16"], file=U,
+         old="        if isinstance(y, numpy.ndarray) and y.dtype.kind in \"iub\":", new="        if False:"),
+    dict(name="revert_D45_duplicate_guard_across_calls", props=["C07"], file=DS,
+         old="                    if self.__events[__rec_idx].event is __ev:", new="                    if False:"),
 ]
